@@ -65,6 +65,10 @@ func genP2Set(rng *rand.Rand, maxFiles int, contents []string, allowBig bool) sc
 	return set
 }
 
+// p2PreCreate, if set, runs on the materialised directory before the Create
+// under test (used to leave an older archive behind).
+var p2PreCreate func(dir, idx string, paths []string)
+
 // p2env is a protected set on a real directory plus its damage model.
 type p2env struct {
 	root  string
@@ -91,6 +95,9 @@ func newP2Env(set scen.Set, base string, g int) (*p2env, error) {
 	e.paths, err = set.Materialize(e.dir)
 	if err != nil {
 		return e, err
+	}
+	if p2PreCreate != nil {
+		p2PreCreate(e.dir, e.idx, e.paths)
 	}
 	var cerr error
 	if pi := core.Protect(func() {
